@@ -100,3 +100,44 @@ Definition go_type (eng : engine) (c : catalog) (dt : string) (notnull isarray l
                | MySQL => mysql_type c dt notnull isarray len1
                end in
   if isarray then "[]" +++ inner else inner.
+
+(** ** overrides (go_type.go goType / goInnerType, compat.go sameTableName) *)
+Record gov := mkGov {
+  gov_gotype : string;            (* GoTypeName after Override.Parse *)
+  gov_column : string;            (* the raw `column` option, "" for a db_type override *)
+  gov_colname : string; gov_cat : string; gov_schema : string; gov_rel : string;
+  gov_dbtype : string; gov_nullable : bool }.
+
+(** the table a column record belongs to: catalog, schema, name — None when the
+    compiler attached no table *)
+Definition same_table_name (t : option (string * string * string)) (o : gov) (default_schema : string) : bool :=
+  match t with
+  | None => false
+  | Some (cat, schema, name) =>
+      let schema := if String.eqb schema "" then default_schema else schema in
+      String.eqb cat (gov_cat o) && String.eqb schema (gov_schema o) && String.eqb name (gov_rel o)
+  end.
+
+Definition column_override (ovs : list gov) (default_schema : string) (tbl : option (string * string * string)) (colname : string)
+  : option gov :=
+  find_first (fun o => negb (String.eqb (gov_gotype o) "") && negb (String.eqb (gov_column o) "")
+                       && String.eqb (gov_colname o) colname && same_table_name tbl o default_schema) ovs.
+
+Definition dbtype_override (ovs : list gov) (dt : string) (not_null : bool) : option gov :=
+  find_first (fun o => negb (String.eqb (gov_gotype o) "") && negb (String.eqb (gov_dbtype o) "")
+                       && String.eqb (gov_dbtype o) dt && negb (Bool.eqb (gov_nullable o) not_null)) ovs.
+
+Definition go_type_ov (ovs : list gov) (eng : engine) (c : catalog)
+           (tbl : option (string * string * string)) (colname dt : string) (notnull isarray len1 : bool) : string :=
+  match column_override ovs (cat_default c) tbl colname with
+  | Some o => gov_gotype o                       (* returned as is: no [] prefix even for an array column *)
+  | None =>
+      let inner := match dbtype_override ovs dt (notnull || isarray) with
+                   | Some o => gov_gotype o
+                   | None => match eng with
+                             | PostgreSQL => postgres_type c dt notnull isarray
+                             | MySQL => mysql_type c dt notnull isarray len1
+                             end
+                   end in
+      if isarray then "[]" +++ inner else inner
+  end.
